@@ -97,6 +97,8 @@ ALL_BODIES = {}
 ALL_BODIES.update(CAL_BODIES)
 ALL_BODIES.update(CARD_BODIES)
 ALL_BODIES.update(UID_BODIES)
+# not a calendar and not a card: what a collection's own configuration file looks like (uploaded under reserved names)
+ALL_BODIES["CFG"] = b"[DEFAULT]\ntype = addressbook\ndisplayname = hijacked\ncolor = #000000\n"
 
 CT_ICS = "text/calendar; charset=utf-8"
 CT_VCF = "text/vcard; charset=utf-8"
